@@ -1216,11 +1216,13 @@ func remEvalSeq(d remCase, work string, picks *[]int) (impl string, err error) {
 	var outs []string
 	for i, s := range d.Steps {
 		s = s.norm()
-		if s.Age > 0 {
-			rr.age(s.Age)
-		}
+		// first the damage / the killed invocation, then the ageing (the model's events come before the step, whose clock
+		// tick is the ageing: a timestamp a killed invocation wrote is aged with the others)
 		if e := rr.applyPre(s); e != nil {
 			return "", e
+		}
+		if s.Age > 0 {
+			rr.age(s.Age)
 		}
 		if strings.HasPrefix(s.Pre, "torn") { // stands for an invocation that approved this version and was killed
 			approved[[2]int{s.PreURL, s.PreV}] = true
